@@ -181,7 +181,7 @@ func isCallNamed(info *types.Info, e ast.Expr, name string) bool {
 		return false
 	}
 	o := eng.CalleeOf(info, c)
-	return o != nil && o.Name() == name
+	return o != nil && nameOf(o) == name
 }
 
 func paramOfType(f *eng.Func, match func(types.Type) bool) *types.Var {
